@@ -82,6 +82,14 @@ static void specials() {
     { ICMP* i = new ICMP(); i->type(ICMP::DEST_UNREACHABLE); add("ICMP#dest_unreachable", "ICMP", i, i); }
     { PDU* p = new PPI(SAMPLE_PPI, sizeof(SAMPLE_PPI)); add("PPI#parsed_chain_root", "PPI", p, p); }
     { EthernetII e = EthernetII() / IPv6() / UDP(53, 53) / DNS(); std::vector<uint8_t> b = e.serialize(); PDU* p = new EthernetII(&b[0], (uint32_t)b.size()); add("EthernetII#parsed_ipv6_udp", "EthernetII", p, p); }
+    // objects derived (sliced copy, copy, clone) from a DERIVED-class object that has already been searched and cast: whatever
+    // a look-up may remember about an object must not travel into an object of another class
+    { DHCP d; d.type(DHCP::DISCOVER); (void)d.find_pdu<DHCP>(); (void)d.find_pdu<BootP>(); (void)tins_cast<DHCP*>(static_cast<PDU*>(&d)); BootP* b = new BootP(d); add("BootP#sliced_copy_of_used_dhcp", "BootP", b, b); }
+    { Dot11QoSData q; (void)q.find_pdu<Dot11QoSData>(); (void)q.find_pdu<Dot11Data>(); (void)tins_cast<Dot11QoSData*>(static_cast<PDU*>(&q)); Dot11Data* d = new Dot11Data(q); add("Dot11Data#sliced_copy_of_used_qos", "Dot11Data", d, d); }
+    { Dot11Beacon bc; (void)bc.find_pdu<Dot11Beacon>(); (void)bc.find_pdu<Dot11ManagementFrame>(); (void)tins_cast<Dot11Beacon*>(static_cast<PDU*>(&bc)); Dot11* d = new Dot11(bc); add("Dot11#sliced_copy_of_used_beacon", "Dot11", d, d); }
+    { Dot11Ack ak; (void)ak.find_pdu<Dot11Ack>(); (void)tins_cast<Dot11Ack*>(static_cast<PDU*>(&ak)); Dot11* d = new Dot11(ak); add("Dot11#sliced_copy_of_used_ack", "Dot11", d, d); }
+    { EthernetII e = EthernetII() / IP("1.2.3.4", "4.3.2.1") / TCP(1, 2) / RawPDU("u"); (void)e.find_pdu<TCP>(); (void)e.find_pdu<RawPDU>(); (void)e.rfind_pdu<IP>(); PDU* c = e.clone(); add("EthernetII#clone_of_used_chain", "EthernetII", c, c);
+      PDU* i = e.rfind_pdu<IP>().clone(); add("IP#clone_of_used_inner", "IP", i, i); TCP* t = new TCP(e.rfind_pdu<TCP>()); add("TCP#copy_of_used_inner", "TCP", t, t); }
     // wrapper inside a chain
     { CUR_WRAPPED = new IP(); EthernetII* e = new EthernetII(); PDUCacher<IP>* c = new PDUCacher<IP>(IP("1.2.3.4", "4.3.2.1") / TCP(1, 2)); e->inner_pdu(c); c->inner_pdu(new RawPDU("after")); add("PDUCacher<IP>#inside_chain", "PDUCacher<IP>", e, c); }
 }
